@@ -118,6 +118,8 @@ def corpus():
     return [
         # the empty-master update (candidate finding C23-update-empty-master)
         _case(STD, False, [["c", 1, 1, -1], ["u", 1], ["c", 1, 0, -1]]),
+        # local tip written, tree not (fault), then update (candidate finding C23-update-stale-tree-drops-old-tip)
+        _case(STD, True, [["c", 1, 1, 1], ["u", 1]]),
         # bound commit; stale light tree refused; update; commit
         _case(STD, True, [["c", 1, 0, -1], ["c", 2, 0, -1], ["u", 2], ["c", 2, 0, -1], ["c", 1, 0, -1], ["u", 1], ["c", 1, 0, -1]]),
         # local commits, master moves, update pivots them into a pending merge, merge commit
@@ -417,6 +419,9 @@ def oracle(inp, obs):
             if b1[1] is not None and ps1[:1] != [b1[1]]:
                 return where + "update left the tree basis %r off the branch tip %r" % (ps1, b1)
             if heavy and bound0 and not _anc_opt(g, b0[1], m1[1]) and not any(_anc_opt(g, b0[1], p) for p in ps1):
+                if ps0[:1] != [b0[1]]:
+                    return "update-stale-tree: " + where + ("tree basis %r was behind the local tip %r; update dropped the "
+                                                          "local commits (old tip not reachable from the tree parents %r)" % (ps0, b0, ps1))
                 return where + "update dropped the local commits (old tip not reachable from the tree parents)"
             if not others_same:
                 return where + "update changed another checkout"
@@ -450,6 +455,10 @@ def finding_matches(fid, inp, obs, why):
     if fid == "C23-update-empty-master":
         # an update in a bound heavyweight checkout whose master is still empty
         return (not inp["root"]) and isinstance(why, str) and (why == "" or why.startswith("update-empty-master: "))
+    if fid == "C23-update-stale-tree-drops-old-tip":
+        # an update in a checkout whose tree was left behind its branch by an interrupted commit
+        return any(o[0] == "c" and o[3] >= 0 for o in inp["ops"]) and isinstance(why, str) and \
+            (why == "" or why.startswith("update-stale-tree: "))
     return False
 
 
